@@ -97,9 +97,9 @@ Proof.
 Qed.
 
 Theorem gen_appendString : forall v data fuel, (Z.of_nat (length v) < 4611686018427387904)%Z -> (length v < fuel)%nat ->
-  appendString fuel data v = Ok (data ++ append_string v).
+  JSONOutput_appendString fuel data v = Ok (data ++ append_string v).
 Proof.
-  intros v data fuel Hlen Hf. unfold appendString.
+  intros v data fuel Hlen Hf. unfold JSONOutput_appendString.
   change ((do lr <- esc_loop v fuel (data ++ [34]) (Z.of_nat 0);
            match lr with LRet r => Ok r | LDone (data0, _) => Ok (data0 ++ [34]) end) = Ok (data ++ append_string v)).
   rewrite (esc_loop_spec v Hlen fuel 0 (data ++ [34]) ltac:(lia) ltac:(lia)). cbn [bind skipn].
